@@ -11,7 +11,8 @@ RULE = (
     'T in 1..12, B in 1..4; rewards/values/bootstrap floats in [-5,5] (plus 0, +-1, +-5); per step and '
     'column a mask symbol from {none, term, trunc} drawn with a per-case pattern (random, all-zero, all-term, '
     'all-trunc, last-step-term, last-step-trunc, consecutive ends); lambda, discount in [0,1] with 0 and 1 '
-    'over-sampled. Oracle: NumPy double sum from the definition. Non-trivial: a termination or truncation '
+    'over-sampled. Oracle: NumPy double sum from the definition. ppo_loss family: the same batches pushed through compute_ppo_loss with stub '
+    'networks (v_loss and policy_loss pin the masks, reward scaling and bootstrap it hands to the estimator). Non-trivial: a termination or truncation '
     'strictly inside the trajectory (t < T-1) and lambda, discount in (0,1). Distinct: hash of the whole case.')
 ASSUMPTIONS = ['masks are 0/1 floats and mutually exclusive per step (what the PPO trainer produces)',
                'float64 (jax_enable_x64); tolerance 1e-10 relative to 1+max|expected|']
@@ -169,12 +170,86 @@ def check(c):
                       'residual_vs': float(res_vs), 'residual_adv': float(res_adv)}), float(res_vs), float(res_adv)
 
 
+# -- through compute_ppo_loss: the masks, reward scaling and bootstrap that the PPO loss feeds into the estimator ----------
+
+
+@st.composite
+def ppo_cases(draw):
+  c = draw(cases())
+  c['reward_scaling'] = draw(st.sampled_from([1.0, 0.1, 5.0, 1.0]))
+  c['raw_action'] = draw(st.lists(st.lists(st.floats(-2, 2, allow_nan=False, width=64), min_size=c['B'], max_size=c['B']),
+                                  min_size=c['T'], max_size=c['T']))
+  c['next_values'] = draw(st.lists(st.lists(_val(), min_size=c['B'], max_size=c['B']), min_size=c['T'], max_size=c['T']))
+  c['family'] = 'ppo_loss'
+  return c
+
+
+def check_ppo_loss(c):
+  """compute_ppo_loss with stub networks (value = first observation feature, constant policy logits, behaviour log-prob
+  equal to the target's, no advantage normalisation, no entropy cost): then v_loss = 0.25 mean((vs - V)^2) and
+  policy_loss = -mean(advantages), which pins the masks, reward scaling and bootstrap value it hands to the estimator."""
+  import jax
+  from jax import numpy as jp
+  gae()
+  from brax.training import distribution, networks
+  from brax.training.agents.ppo import losses
+  from brax.training.agents.ppo import networks as ppo_networks
+  from brax.training.types import Transition
+  t_len, b_len = c['T'], c['B']
+  m = np.array(c['masks'], dtype=np.int64).reshape(t_len, b_len)
+  term, trunc = (m == 1).astype(np.float64), (m == 2).astype(np.float64)
+  r = np.array(c['rewards'], float).reshape(t_len, b_len)
+  v = np.array(c['values'], float).reshape(t_len, b_len)
+  nv = np.array(c['next_values'], float).reshape(t_len, b_len)
+  # a trajectory: next value of step t is the value of step t+1 unless the episode ended there
+  nv[:-1] = np.where((m[:-1] == 0), v[1:], nv[:-1])
+  boot = nv[-1]
+  raw = np.array(c['raw_action'], float).reshape(t_len, b_len, 1)
+  lam, g, rs = float(c['lam']), float(c['disc']), float(c['reward_scaling'])
+  dist = distribution.NormalTanhDistribution(event_size=1)
+  scale = np.logaddexp(0.0, 0.0) + 0.001
+  x = raw[..., 0]
+  ldj = 2.0 * (np.log(2.0) - np.abs(x) - np.log1p(np.exp(-2.0 * np.abs(x))))
+  logp = -0.5 * (x / scale) ** 2 - 0.5 * np.log(2 * np.pi) - np.log(scale) - ldj
+  pol = networks.FeedForwardNetwork(init=lambda k: None, apply=lambda n_, p_, obs: jp.zeros(obs.shape[:-1] + (2,)))
+  val = networks.FeedForwardNetwork(init=lambda k: None, apply=lambda n_, p_, obs: obs[..., 0] * p_)
+  net = ppo_networks.PPONetworks(policy_network=pol, value_network=val, parametric_action_distribution=dist)
+  bt = lambda a: jp.array(np.swapaxes(a, 0, 1))   # [T, B, ...] -> [B, T, ...]
+  obs = np.stack([v, np.zeros_like(v)], -1)
+  nobs = np.stack([nv, np.zeros_like(v)], -1)
+  data = Transition(observation=bt(obs), action=bt(np.tanh(raw)), reward=bt(r), discount=bt(1.0 - np.maximum(term, trunc)),
+                    next_observation=bt(nobs),
+                    extras={'state_extras': {'truncation': bt(trunc)}, 'policy_extras': {'log_prob': bt(logp), 'raw_action': bt(raw)}})
+  params = losses.PPONetworkParams(policy=jp.zeros(()), value=jp.ones(()))
+  _, met = losses.compute_ppo_loss(params, None, data, jax.random.PRNGKey(0), net, entropy_cost=0.0, discounting=g,
+                                   reward_scaling=rs, gae_lambda=lam, clipping_epsilon=0.3, normalize_advantage=False)
+  evs, eadv = reference(trunc, term, r * rs, v, boot, lam, g)
+  exp_v = 0.25 * np.mean((evs - v) ** 2)
+  exp_p = -np.mean(eadv)
+  got_v, got_p = float(met['v_loss']), float(met['policy_loss'])
+  if not abs(got_v - exp_v) <= 1e-9 * (1 + abs(exp_v)):
+    raise Violation('ppo_value_targets', f'compute_ppo_loss v_loss {got_v!r}, expected {exp_v!r} from the defining sum (T={t_len}, B={b_len}, '
+                    f'reward_scaling={rs}, pattern={c["pattern"]}): the value targets inside the PPO loss are not the estimator\'s',
+                    labels={'check': 'ppo_value_targets'})
+  if not abs(got_p - exp_p) <= 1e-9 * (1 + abs(exp_p)):
+    raise Violation('ppo_advantages', f'compute_ppo_loss policy_loss {got_p!r}, expected -mean(advantages) = {exp_p!r} (T={t_len}, B={b_len}, '
+                    f'reward_scaling={rs}, pattern={c["pattern"]})', labels={'check': 'ppo_advantages'})
+  inside = bool(np.any(m[:-1] != 0)) if t_len > 1 else False
+  return dict(fp=fingerprint(c), nontrivial=bool(inside and 0 < lam < 1 and 0 < g < 1), labels=['ppo_loss', 'pattern:' + c['pattern'], f'reward_scaling:{rs}'],
+              sample={'family': 'ppo_loss', 'T': t_len, 'B': b_len, 'reward_scaling': rs, 'lambda': lam, 'discount': g,
+                      'masks(0 none,1 term,2 trunc)': c['masks'], 'v_loss': got_v, 'policy_loss': got_p})
+
+
 def tasks(tier, seed):
   n = 250 if tier == 'quick' else 4000
-  return [{'kind': 'gae', 'n': n} for _ in range(16)]
+  return [{'kind': 'gae', 'n': n} for _ in range(12)] + [{'kind': 'ppo_loss', 'n': 150 if tier == 'quick' else 2500} for _ in range(4)]
 
 
 def run_task(task, ctx):
+  if task['kind'] == 'ppo_loss':
+    ctx.run_given(ppo_cases(), check_ppo_loss, task['n'], task['seed'], check='ppo_loss')
+    return
+
   def body(c):
     info, a, b = check(c)
     ctx.residual('value_targets', a)
@@ -184,4 +259,7 @@ def run_task(task, ctx):
 
 
 def replay(case, check_name=None):
-  check(case)
+  if case.get('family') == 'ppo_loss' or check_name == 'ppo_loss':
+    check_ppo_loss(case)
+  else:
+    check(case)
